@@ -186,3 +186,41 @@ package goja
 //@   ensures @propOrderIdxPrefix [index-prefix]
 //@   ensures @propOrderRest [non-index-rest]
 //@   ensures @propOrderSorted [index-prefix-sorted]
+
+// ---- own-key order of function objects (C04: string keys in creation order)
+// Assumed: sorting the recorded key order touches only the order bookkeeping.
+//@ func (*baseObject).ensurePropOrder
+//@   props C04
+//@   trusted
+//@   assigns o.propNames, elems(o.propNames), o.lastSortedPropLen, o.idxPropCount
+
+// Assumed: wrapping a raw key as a string value only reads (unistring.AsUtf16 uses unsafe).
+//@ func stringValueFromRaw
+//@   props C04
+//@   trusted
+//@   assigns nothing
+
+// The keys of an object are appended to the accumulator; what it already holds is kept.
+//@ func (*baseObject).stringKeys
+//@   props C04
+//@   requires o != nil
+//@   capture keys0 []Value = entry keys
+//@   loop 1 vars keys []Value
+//@   loop 1 invariant len(keys) >= len(keys0) [accumulator-grows]
+//@   loop 1 invariant forall k int :: 0 <= k && k < len(keys0) ==> same(keys[k], old(keys0[k])) [accumulated-keys-kept]
+//@   loop 1 invariant len(keys0) > 0 ==> same(keys[len(keys0)-1], old(keys0[len(keys0)-1])) [last-accumulated-key-kept]
+//@   loop 2 vars keys []Value
+//@   loop 2 invariant len(keys) >= len(keys0) [accumulator-grows]
+//@   loop 2 invariant forall k int :: 0 <= k && k < len(keys0) ==> same(keys[k], old(keys0[k])) [accumulated-keys-kept]
+//@   loop 2 invariant len(keys0) > 0 ==> same(keys[len(keys0)-1], old(keys0[len(keys0)-1])) [last-accumulated-key-kept]
+//@   ensures len(result) >= len(keys0) [accumulator-grows]
+//@   ensures forall k int :: 0 <= k && k < len(keys0) ==> same(result[k], old(keys0[k])) [keys-are-appended]
+//@   ensures len(keys0) > 0 ==> same(result[len(keys0)-1], old(keys0[len(keys0)-1])) [last-accumulated-key-kept]
+
+// A function's 'prototype' property is created lazily. It was created with the function (after 'length'
+// and 'name'), so it must not be listed before keys that are older than it, and reading it must not move
+// it. Stated for the not-yet-materialised case; does not hold (recorded in /verif/known_findings.json).
+//@ func (*funcObject).stringKeys
+//@   props C04
+//@   requires f != nil
+//@   ensures all && !old(specFuncProtoMaterialized(f)) && old(len(f.propNames)) > 0 && len(result) > old(len(accum)) ==> !specIsAsciiStr(result[old(len(accum))], "prototype") [a-lazily-created-key-is-not-listed-before-older-keys]
